@@ -245,6 +245,7 @@ func c08(r *Report) {
 	})
 
 	r.Guard("C08.R2", "the default processor hands every call to the relay of the other direction with the stream and all of its arguments", func() {
+		processorChainRule(r)
 		// relayAdapter is the end of every processor chain (and the whole chain when no processor is
 		// configured): each of its Processor methods must, on every path, call a method of its relay
 		// with its own stream ID and every one of its parameters
@@ -799,6 +800,7 @@ func c08(r *Report) {
 		if emit := r.Use("h2", "outputBuffer.emitEligibleFrames"); emit != nil {
 			windowFitRules(r, emit)
 		}
+		initialWindowRules(r)
 	})
 
 	r.Guard("C08.R7", "the connection preface is read completely before it is compared", func() {
